@@ -1,0 +1,21 @@
+//go:build verif
+
+package pop3
+
+import "net"
+
+// VerifServeConn runs one POP3 session on conn through the regular session code (registering
+// it with the session WaitGroup the way serve does) and returns when the session has ended.
+// Verification builds only.
+func (s *Server) VerifServeConn(id int, conn net.Conn) {
+	s.wg.Add(1)
+	s.startSession(id, conn)
+}
+
+// VerifAddr returns the bound listener address, or nil before Start has bound it.
+func (s *Server) VerifAddr() net.Addr {
+	if s.listener == nil {
+		return nil
+	}
+	return s.listener.Addr()
+}
